@@ -96,6 +96,12 @@ func (b basicOnly) Has(ctx context.Context, k string) (bool, error)   { return b
 func (b basicOnly) Get(ctx context.Context, k string) ([]byte, error) { return b.s.Get(ctx, k) }
 func (b basicOnly) Put(ctx context.Context, k string, c []byte) error { return b.s.Put(ctx, k, c) }
 
+type keptGet struct {
+	b   []byte
+	h   uint64
+	key int
+}
+
 // ---- history ----
 
 type hop struct {
@@ -126,6 +132,7 @@ type world struct {
 	store   rw // storage.* backends
 	mem     *cidlink.Memory
 	hist    []hop
+	kept    []keptGet // slices Get returned (a safe copy by contract): they belong to the caller
 	helper  bool
 	faulty  bool
 	ncl     int
@@ -581,6 +588,9 @@ func (w *world) do(client, kind, k int, pieces []int, end, chunk int, scribble b
 		h.ok = err == nil
 		if err == nil {
 			w.checkBytes(&h, b, content)
+			if len(w.kept) < 32 {
+				w.kept = append(w.kept, keptGet{b, sim.HashString(string(b)), k})
+			}
 		} else {
 			w.absent(&h, err)
 		}
@@ -778,6 +788,11 @@ func (w *world) judge(faulty bool) {
 				// matter the property does not speak about.)
 				o.Fail("put-failed", w.sig(p.key), "%s on %s failed for key %q on a healthy store: %v", p.how, w.bname, trunc(w.keys[p.key]), p.err)
 			}
+		}
+	}
+	for _, kg := range w.kept {
+		if sim.HashString(string(kg.b)) != kg.h {
+			o.Fail("returned-bytes-changed", w.sig(kg.key), "the slice an earlier Get returned for key %q was changed by later store operations (Get is documented to return a safe copy)", trunc(w.keys[kg.key]))
 		}
 	}
 	// disk-level observations
